@@ -5,6 +5,8 @@ pub mod c02;
 pub mod c03;
 pub mod c07;
 pub mod c08;
+pub mod c09;
+pub mod c10;
 pub mod c14;
 pub mod c15;
 pub mod c16;
@@ -20,6 +22,8 @@ pub fn all() -> Vec<Box<dyn DynProp>> {
         Box::new(c03::C03::default()),
         Box::new(c07::C07),
         Box::new(c08::C08),
+        Box::new(c09::C09),
+        Box::new(c10::C10),
         Box::new(c14::C14),
         Box::new(c15::C15),
         Box::new(c16::C16::default()),
